@@ -11,6 +11,7 @@ OVERLAY = {
     "core/record/zz_c08_round2_verif_test.go": "harness/overlay/record/c08_round2_verif_test.go",
     "core/record/zz_c08_round2b_verif_test.go": "harness/overlay/record/c08_round2b_verif_test.go",
     "core/record/zz_c08_round3_verif_test.go": "harness/overlay/record/c08_round3_verif_test.go",
+    "core/record/zz_c08_round4_verif_test.go": "harness/overlay/record/c08_round4_verif_test.go",
 }
 PKG = "core/record"
 
@@ -45,7 +46,8 @@ KIND = {1: "varint-encode", 2: "varint-decode", 3: "makeUnsigned", 4: "makeUnsig
         11: "non-canonical serialization of a key", 12: "MatchesPublicKey", 13: "RSA key size boundary",
         14: "ExtractPublicKey under AdvancedEnableInlining", 15: "seal, mutate the producer's record, consume the same envelope",
         16: "/p2p address form (IDFromP2PAddr, SplitAddr, AddrInfoFromP2pAddr)", 17: "hand-sealed relay voucher",
-        19: "edited private-key blob"}
+        19: "edited private-key blob", 20: "address-book history (ConsumePeerRecord / GetPeerRecord / stored bytes edited)"}
+BOOK = {0: "pstoremem", 1: "pstoreds (CacheSize 0)", 2: "pstoreds (with cache)"}
 REGION = {0: "none", 1: "protobuf framing", 2: "ed25519 seed", 3: "ed25519 public half", 4: "key data", 5: "truncation",
           6: "extension", 7: "legacy 96-byte form", 8: "legacy form, copies differ",
           9: "std-library key with altered seed imported by KeyPairFromStdKey"}
@@ -65,6 +67,67 @@ class Rd:
         v = self.t[self.p:self.p + n]
         self.p += n
         return bytes(x & 255 for x in v)
+
+
+def describe20(r, failing=None):
+    """decode a kind-20 history; ops are numbered from 0"""
+    d = {"book": BOOK.get(r.z())}
+    d["domain"] = r.b().decode("latin1"); d["peer_record_codec_hex"] = r.b().hex()
+    keys = []
+    for _ in range(r.z()):
+        kt = r.z(); r.b(); canon = r.b(); r.b(); goid = r.b()
+        keys.append({"type": kt, "marshalled_pubkey_hex": canon.hex()[:80], "id_hex": goid.hex()})
+    d["keys"] = keys
+    seals = []
+    for _ in range(r.z()):
+        ki = r.z()
+        seals.append({"signer": ki, "domain": r.b().decode("latin1"), "payload_type_hex": r.b().hex(),
+                      "payload_hex": r.b().hex(), "signature_hex": r.b().hex()[:40]})
+    d["sealed"] = seals
+    for _ in range(r.z()):
+        r.z(); r.b(); r.z()
+    ops = []
+    RES = {0: "rejected: unmarshal", 1: "ACCEPTED", 2: "rejected: signature/domain", 3: "validated, payload not a record", 4: "other"}
+    for i in range(r.z()):
+        tag = r.z()
+        if tag == 1:
+            o = {"op": "ConsumeEnvelope+ConsumePeerRecord", "envelope_hex": r.b().hex(), "result": RES.get(r.z())}
+            o["accepted"] = {"signer_hex": r.b().hex()[:80], "payload_type_hex": r.b().hex(), "payload_hex": r.b().hex(), "signer_id_hex": r.b().hex()}
+            o["peerstore"] = {0: "not attempted", 1: "STORED", 2: "rejected: id mismatch", 3: "refused (older seq)"}.get(r.z())
+            o["record_peer_id_hex"] = r.b().hex()
+        elif tag == 2:
+            o = {"op": "GetPeerRecord", "peer_hex": r.b().hex(), "returned": r.z()}
+            o["record"] = {"signer_hex": r.b().hex()[:80], "payload_type_hex": r.b().hex(), "payload_hex": r.b().hex(), "signer_id_hex": r.b().hex()}
+            o["returned_envelope_validates"] = r.z()
+        elif tag == 3:
+            o = {"op": "datastore entry: CertifiedRecord.Raw overwritten", "peer_hex": r.b().hex(), "raw_hex": r.b().hex()}
+        else:
+            o = {"op": "restart (new address book over the same datastore)"}
+        o["n"] = i
+        ops.append(o)
+    d["ops"] = ops
+    return d
+
+
+def first_bad_op20(toks):
+    """index and decoded form of the first op of a kind-20 history whose observation no seal event covers"""
+    try:
+        d = describe20(Rd(toks[1:]))
+        sealed = {(d["keys"][s["signer"]]["id_hex"], s["domain"], s["payload_type_hex"], s["payload_hex"]) for s in d["sealed"]}
+        for o in d["ops"]:
+            if o["op"].startswith("Consume") and o["result"] == "ACCEPTED":
+                a = o["accepted"]
+                if (a["signer_id_hex"], d["domain"], a["payload_type_hex"], a["payload_hex"]) not in sealed:
+                    return d, o
+                if o["peerstore"] == "STORED" and o["record_peer_id_hex"] != a["signer_id_hex"]:
+                    return d, o
+            if o["op"] == "GetPeerRecord" and o["returned"] == 1:
+                a = o["record"]
+                if (a["signer_id_hex"], d["domain"], a["payload_type_hex"], a["payload_hex"]) not in sealed:
+                    return d, o
+    except Exception:
+        pass
+    return None, None
 
 
 def describe(t):
@@ -140,6 +203,8 @@ def describe(t):
             d["key_type"] = r.z(); d["edit_region"] = REGION.get(r.z())
             d["original_blob_hex"] = r.b().hex()[:160]; d["edited_blob_hex"] = r.b().hex()[:160]; d["public_key_of_seed_hex"] = r.b().hex()
             d["class(3=accepted)"], d["equal_any"], d["equal_all"], d["remarshals_to_original"], d["signs_for_own_public_key"], d["signs_for_original_public_key"] = t[r.p + 1:r.p + 7]
+        elif k == 20:
+            d.update(describe20(r))
         elif k == 13:
             d["modulus_bits"], d["private"], d["class(3=accepted)"], d["roundtrip"] = t[1:5]
         elif k in (9,):
@@ -154,7 +219,7 @@ def describe(t):
 def nontrivial(line):
     # non-trivial: an envelope / signature / key edit case, or a colliding-concatenation pair
     k = line.split(b" ", 1)[0]
-    return k in (b"4", b"6", b"7", b"8", b"11", b"12", b"13", b"14", b"15", b"16", b"17", b"19")
+    return k in (b"4", b"6", b"7", b"8", b"11", b"12", b"13", b"14", b"15", b"16", b"17", b"19", b"20")
 
 
 def key(tag, toks, d):
@@ -180,6 +245,15 @@ def key(tag, toks, d):
         return "C08:%s:clause%s:api=%s:reused=%s:payload=%s" % (KIND[k], clause, toks[1], toks[2], describe(toks).get("payload_hex", "")[:16])
     if k == 19:   # clause + key type + where the edit hit (the blobs are fresh per run)
         return "C08:%s:clause%s:keytype=%s:region=%s" % (KIND[k], clause, toks[1], REGION.get(toks[2], toks[2]))
+    if k == 20:   # clause + book + what was done to the store before the failing op (bytes are fresh per run)
+        d20, o = first_bad_op20(toks)
+        before = ""
+        if d20 and o:
+            prev = [x["op"].split(" ")[0].split(":")[0] for x in d20["ops"][:o["n"]]]
+            before = "edited" if "datastore" in prev else "api-only"
+            if "restart" in prev:
+                before += "+restart"
+        return "C08:address-book:clause%s:book=%s:op=%s:store=%s" % (clause, toks[1], (o or {}).get("op", "?").split(" ")[0], before)
     if k == 13:
         return "C08:%s:clause%s:bits=%s:private=%s:class=%s:roundtrip=%s" % ((KIND[k], clause) + tuple(toks[1:5]))
     return "C08:%s:clause%s:%s" % (KIND.get(k, k), clause, " ".join(map(str, toks[1:40])))
@@ -212,7 +286,17 @@ def what(tag, toks, d):
         (19, 191): "an edited private-key blob unmarshals to (or an altered key imports as) a key reported EQUAL to the original although what it signs does not verify under the original public key",
         (19, 192): "an edited private-key blob unmarshals to a private key whose signatures do not verify under its own GetPublic()",
         (13, 131): "an RSA key of a size that can be generated does not unmarshal / round-trip",
+        (20, 201): "ConsumeEnvelope (peer-record domain) ACCEPTED an envelope although no seal event has the accepted (signer, domain, payload type, payload)",
+        (20, 202): "a peerstore stored a signed peer record whose peer ID is not the ID of the signing key",
+        (20, 203): "GetPeerRecord handed out, as a peer's signed record, an envelope whose (signer, peer-record domain, payload type, payload) nobody sealed",
     }.get((k, clause))
+    if k == 20:
+        d20, o = first_bad_op20(toks)
+        if o:
+            prev = [x for x in d20["ops"][:o["n"]] if x["op"].startswith("datastore")]
+            msg = "%s [%s, op #%d %s%s%s]" % (msg, d20["book"], o["n"], o["op"],
+                                            (": payload " + o["record"]["payload_hex"][:100] + (", envelope re-validates: %s" % o["returned_envelope_validates"])) if "record" in o else "",
+                                            ("; the stored envelope bytes had been overwritten before (op #%d)" % prev[-1]["n"]) if prev else "")
     if k == 15 and len(toks) > 1 and toks[1] >= 4 and clause == 151:
         msg = "two sealed records were consumed into ONE destination value: it does not hold exactly the second record's sealed content (stale fields of the first survive)"
     if msg is None and k == 5:
@@ -247,6 +331,6 @@ if __name__ == "__main__":
              "non-minimal varints/enum truncation), foreign key and foreign signature pairings, re-sealing by a foreign key, wrong domains. "
              "Byte-level functions (uvarint, makeUnsigned, MarshalPublicKey, IDFromPublicKey, base58/CID text, multihash, protobuf scan of "
              "every mutated envelope/key) are compared byte for byte with the Coq model (conform_case); every attempt is judged by the "
-             "property monitor (monitor_case). Also: every accepted non-canonical serialization of each key (unknown fields, order, redundant varints, repeated fields) stand-alone and inside envelopes must give an equal key with the same marshalled form and the same ID; alias IDs (identity multihash over such serializations, inline form of hashed keys, hashed form of inlined keys) as MatchesPublicKey probes and as PeerRecord.PeerID through both peerstores; RSA moduli of 1024..16384 bits around MinRsaKeyBits/maxRsaKeyBits plus one embedded real 8192-bit key pair (private/public round trip, all ID forms, a signature). Round 2: sig(x) tried on sha256/sha512/sha512-256/sha1/sha384(x) and sig(H(x)) on x for every key type, messages of exactly 0..65 bytes; IDs made and keys extracted under both values of AdvancedEnableInlining (binary, base58, CID forms); Seal, then the producer edits/reuses the record, then Record()/TypedRecord/both peerstores on the same *Envelope; multiaddrs from component lists incl. relay/circuit forms (IDFromP2PAddr vs SplitAddr vs AddrInfoFromP2pAddr vs the model); relay voucher payloads written by hand (fields removed/empty/repeated/reordered), sealed and consumed into fresh and reused destinations. Corpus (always first): a fixed Ed25519 key whose private blob with an altered seed / public half must be an unmarshal error (defect repaired in a5f52a7). Round 3: every byte flipped / every truncation / extension / legacy forms of marshalled PRIVATE keys of every type (error, or not reported equal unless interchangeable with the original; whatever unmarshals must sign for its own public key); ECDSA keys on P-224/P-384/P-521 (GenerateECDSAKeyPairWithCurve, KeyPairFromStdKey) through the key, signature, digest, ID, alias, envelope and peer-record streams; two different sealed records (PeerRecord, voucher, generic) consumed into ONE destination via ConsumeTypedEnvelope / TypedRecord. Non-trivial = envelope, signature, key-edit, alias, MatchesPublicKey, RSA-size and colliding-concatenation cases.",
+             "property monitor (monitor_case). Also: every accepted non-canonical serialization of each key (unknown fields, order, redundant varints, repeated fields) stand-alone and inside envelopes must give an equal key with the same marshalled form and the same ID; alias IDs (identity multihash over such serializations, inline form of hashed keys, hashed form of inlined keys) as MatchesPublicKey probes and as PeerRecord.PeerID through both peerstores; RSA moduli of 1024..16384 bits around MinRsaKeyBits/maxRsaKeyBits plus one embedded real 8192-bit key pair (private/public round trip, all ID forms, a signature). Round 2: sig(x) tried on sha256/sha512/sha512-256/sha1/sha384(x) and sig(H(x)) on x for every key type, messages of exactly 0..65 bytes; IDs made and keys extracted under both values of AdvancedEnableInlining (binary, base58, CID forms); Seal, then the producer edits/reuses the record, then Record()/TypedRecord/both peerstores on the same *Envelope; multiaddrs from component lists incl. relay/circuit forms (IDFromP2PAddr vs SplitAddr vs AddrInfoFromP2pAddr vs the model); relay voucher payloads written by hand (fields removed/empty/repeated/reordered), sealed and consumed into fresh and reused destinations. Corpus (always first): a fixed Ed25519 key whose private blob with an altered seed / public half must be an unmarshal error (defect repaired in a5f52a7). Round 3: every byte flipped / every truncation / extension / legacy forms of marshalled PRIVATE keys of every type (error, or not reported equal unless interchangeable with the original; whatever unmarshals must sign for its own public key); ECDSA keys on P-224/P-384/P-521 (GenerateECDSAKeyPairWithCurve, KeyPairFromStdKey) through the key, signature, digest, ID, alias, envelope and peer-record streams; two different sealed records (PeerRecord, voucher, generic) consumed into ONE destination via ConsumeTypedEnvelope / TypedRecord. Round 4: histories of one address book (pstoremem; pstoreds with CacheSize 0 and 64): signed peer records through ConsumeEnvelope + ConsumePeerRecord + GetPeerRecord; 19 classes of edited envelopes offered through the API; older/newer/replayed sequence numbers; records naming a foreign ID; for pstoreds the stored envelope bytes overwritten in the datastore between write and read (same classes, another peer's sealed record, the signer's other records, empty) with and without a restart and behind the cache; every history replayed by the model's book and judged by the monitor (whatever GetPeerRecord returns has the content of a seal event). Non-trivial = envelope, signature, key-edit, alias, MatchesPublicKey, RSA-size and colliding-concatenation cases.",
         describe=describe, key=key, what=what, crosscheck=60,
     ))
